@@ -8,7 +8,7 @@
    vm_compute in Qty/Prelude.v; the five Planck units have half-integer
    exponents and are outside it).  Floating-point rounding is outside the model. *)
 From Coq Require Import List ZArith QArith Qcanon String Bool Permutation.
-From NV Require Import Qty.Model Qty.Exec Qty.Proofs Qty.TableSem Qty.Good Qty.Demo.
+From NV Require Import Qty.Model Qty.Exec Qty.Proofs Qty.TableSem Qty.Complete Qty.Good Qty.Demo.
 Import ListNotations.
 Local Open Scope Qc_scope.
 
@@ -80,20 +80,23 @@ Proof.
 Qed.
 Print Assumptions C03_expr.
 
-(* Not proved (kept as a definition): completeness of convert_to — equal
-   dimension vectors imply that convert_to succeeds.  It needs uniqueness of
-   canonical forms under the name-based sort; it is covered by the
-   correspondence check (every same-dimension prelude pair converts). *)
-Definition C03_convert_complete_full : Prop :=
-  forall tbl, good_table tbl -> forall q target,
-    unit_int (q_unit q) = true -> unit_int target = true ->
+(* completeness of convert_to, with the sort keys the code computes: whenever the
+   two units have the same base-unit exponent vector the conversion succeeds
+   (the final equality test on canonicalized base representations cannot fail:
+   canonical forms of base-unit lists are unique under the name order).  No
+   integrality or positivity hypothesis: this holds for rational exponents too. *)
+Theorem C03_convert_complete :
+  forall tbl, wf_table tbl = true -> distinct_names (map u_name tbl) = true ->
+  forall q target,
     (forall x, dimv (resolve QcN tbl) (q_unit q) x = dimv (resolve QcN tbl) target x) ->
     exists q', convert_to QcN tbl (resolve QcN tbl) (all_keys QcN tbl (resolve QcN tbl)) q target = Ok q'.
+Proof. intros tbl Hwf Hn q target. exact (convert_complete tbl Hwf Hn q target). Qed.
+Print Assumptions C03_convert_complete.
 
 (* ---- non-vacuity: the demo table satisfies the hypotheses, and a concrete
    tree  (3 km/h * 2 h + 10 ft) -> inch  evaluates (through the common-factor
    path of convert_to and the smaller-unit rule of +) to the expected value *)
-Example C03_demo_good : good_table demo_tbl.
+Example C03_demo_good : good_table demo_tbl /\ distinct_names (map u_name demo_tbl) = true.
 Proof. repeat split; vm_compute; reflexivity. Qed.
 
 Example C03_nonvacuous :
